@@ -63,6 +63,11 @@ CHECKS = {
         text='Edge cycles from label transitions, one-sided consistencies as exact rationals (either value in a one-cycle gap), everything else bit-identical, labels = rule on rank codes of the output table, Grows(old,new) and superset under lowered thresholds; TLC proves Grows / only-edges / one-sided >= two-sided for the model on all small tables, compares the real chain on each, and judges every recorded call (same / lowered / changed thresholds, functional and object API, both centrings).',
         design_ref='6/C16',
         note='one open known finding (F12: peak-centred tables without sample columns); exhaustive part: 4-5 cycles over a 2-level domain.'),
+    'C19': dict(
+        technique=TECH + 'exhaustive enumeration by TLC (MC_Kwargs) of the documented decision tables (array shape x axis x option-list shape; every parameter at / inside / outside its range at every entry point) with the outcome of the real entry point looked up for every point',
+        text='KwargsShape.tla is the documented accept/reject table; TLC enumerates the complete grid (extents 1..3, 7 axis values, None/dict/1-D/2-D/3-D lists; ~250 parameter points over 25 entry points, ASSUMEs force the harness to probe every position of every parameter) and requires "returns" where the table accepts and exactly ValueError where it rejects, for check_kwargs_shape, compute_features_2d/3d, BycycleGroup.fit and the single-signal entry points.',
+        design_ref='6/C19',
+        note='finite grids, exhaustive: true; accepted list shapes are checked for correct pairing by C11/C12; limit_df(fs=0) is not claimed either way.'),
     'C17': dict(
         technique=TECH + 'exhaustive small-scope model checking (MC_Phase) over every valid cyclepoint placement with the real extrema_interpolated_phase judged on each, plus trace validation (Trace_Phase) on cyclepoints of generated signals',
         text='Phase model in exact quarter-turn rationals (anchors with extrema overriding midpoints, linear advance, wrap only at troughs, NaN outside the span); TLC proves the four statements of C17 for the model on every placement up to the bound and evaluates the same four statements on order-isomorphic rank codes of the real function\'s output for every placement and for recorded calls on generated cyclepoints (any boundary, first_extrema, with/without midpoints).',
